@@ -232,7 +232,7 @@ Cx(L, mfm, ofm) == [L |-> L, mfm |-> mfm, ofm |-> ofm]
 
 EndsAt(P, cx, i)  == { r[1] : r \in MI(P, cx, i, {}) }
 StartsAt(P, cx, i) == MI(P, cx, i, {}) # {}
-Spans(P, cx) == { <<i, j>> \in (1..Len(cx.L) + 1) \X (1..Len(cx.L) + 1) : j \in EndsAt(P, cx, i) }
+Spans(P, cx) == UNION { { <<i, j>> : j \in EndsAt(P, cx, i) } : i \in 1..(Len(cx.L) + 1) }
 Found(P, cx) == \E i \in 1..(Len(cx.L) + 1) : StartsAt(P, cx, i)
 
 (***************************************************************************)
